@@ -183,6 +183,9 @@ def gen_program(rng, max_steps=8):
         out[f] = "\n".join(src) + "\n"
     entry = "direct"
     main = None
+    if rng.random() < 0.015:
+        # an exception object that was never raised: no traceback, no frames
+        return dict(files=out, entry="unraised", main=None, n_tog=len(tog_ids))
     if rng.random() < 0.2:
         entry = "module"
         main = "main_script.py"
@@ -321,12 +324,14 @@ def modname_for(rel):
     return "c17m_" + rel[:-3].replace("/", "_")
 
 
-def load_program(prog, root):
+def load_program(prog, root, write=True):
     """Write the sources below `root`, execute the modules (registered in sys.modules). -> list of module names"""
     REG.clear()
     UNPICK.clear()
     names = []
     for rel, src in prog["files"].items():
+        if not write:
+            break
         path = os.path.join(root, rel)
         os.makedirs(os.path.dirname(path), exist_ok=True)
         with open(path, "w", encoding="utf-8") as fh:
@@ -353,6 +358,8 @@ def unload_program(names):
 
 def raise_program(prog, root, names):
     """Run the loaded program; -> the exception with the harness' own frames trimmed off the traceback."""
+    if prog["entry"] == "unraised":
+        return ValueError("never raised")
     try:
         if prog["entry"] == "module":
             rel = prog["main"]
@@ -379,12 +386,10 @@ def raise_program(prog, root, names):
 def dry_frames(prog):
     """Frames (bottom-first, following __cause__ or __context__) of the program, for choosing selectors.
     -> list of (relfile, lineno, name, qualname).  Uses a throw-away directory-less compile."""
-    import tempfile
-    import shutil
-    root = tempfile.mkdtemp(prefix="pfbc17_dry_")
+    root = "/pfbc17_dry_nonexistent"       # nothing is written: the sources are compiled from memory
     names = []
     try:
-        names = load_program(prog, root)
+        names = load_program(prog, root, write=False)
         exc = raise_program(prog, root, names)
         out = []
         e = exc
@@ -403,7 +408,6 @@ def dry_frames(prog):
         return out
     finally:
         unload_program(names)
-        shutil.rmtree(root, ignore_errors=True)
 
 
 # --------------------------------------------------------------------------------------
